@@ -270,6 +270,13 @@ WOPNFile *WOPN_LoadBankFromMem(void *mem, size_t length, int *error)
             return NULL;
         }
         version = toUint16LE(cursor);
+        if(version == 0)
+        {
+            /* Version 0 never existed: a header that claims it is damaged
+             * (it would be parsed as version 1 and re-saved as version 2) */
+            SET_ERROR(WOPN_ERR_BAD_MAGIC);
+            return NULL;
+        }
         if(version > wopn_latest_version)
         {
             SET_ERROR(WOPN_ERR_NEWER_VERSION);
@@ -386,6 +393,8 @@ int WOPN_LoadInstFromMem(OPNIFile *file, void *mem, size_t length)
         if(length < 2)
             return WOPN_ERR_UNEXPECTED_ENDING;
         version = toUint16LE(cursor);
+        if(version == 0) /* Version 0 never existed: damaged header */
+            return WOPN_ERR_BAD_MAGIC;
         if(version > wopn_latest_version)
             return WOPN_ERR_NEWER_VERSION;
         GO_FORWARD(2);
